@@ -89,6 +89,10 @@ SHAPES = {
     "name": (["nosuch{i}"], (0, 0), (), "name"),
     "attr": (["o.nosuch{i}"], (0, 0), (), "attr"),
     "fstr": (["f\"a{(boom {i})}b\""], (0, 0), (), "call"),
+    # the raising form is (in) the FIRST ITERABLE of a comprehension: a real one, and one lowered to a generator function
+    "iter_native": (["(lfor q", "[(boom {i})]", "q", ")"], (1, 1), (), "call"),
+    "iter_lowered": (["(lfor q", "[(boom {i})]", ":do (log 0 0)", "q", ")"], (1, 1), (), "call"),
+    "iter_lowered_gfor": (["(list (gfor q", "(get", "[[1]]", "(boom {i})", ")", ":do (log 0 0)", "q", "))"], (3, 3), (), "call"),
     # an augmented assignment whose in-place operation itself raises (o.acc.__iadd__ raises Marker(v)):
     # one operand, and several operands (documented as (+= x (+ a b)))
     "aug1": (["(+= o.acc", "{i}", ")"], (0, 2), (), "raise"),
@@ -110,6 +114,7 @@ SHAPES = {
     # "ptmpl": the PARENT form of the leaf is a macro template (generated per case), see render_program
 }
 SHAPE_ORDER = ["plain", "split", "meth", "dotmeth", "raise", "div", "index", "name", "attr", "fstr", "aug1", "aug2",
+               "iter_native", "iter_lowered", "iter_lowered_gfor",
                "arg_ident", "arg_qq", "arg_splice", "arg_nested", "tmpl", "tmpl_deep", "tmpl_raise", "tmpl_fstr",
                "tmpl_shared", "tmpl_shared_atom", "ptmpl"]
 TEMPLATE_SHAPES = ("tmpl", "tmpl_deep", "tmpl_raise", "tmpl_fstr", "tmpl_shared", "tmpl_shared_atom", "ptmpl")
